@@ -2,11 +2,13 @@
    Statements only; proofs are in proofs/PersistProofs.v.  Models: model/Persist.v (persist = MarshalJSON,
    restore = readSession/ReadRun, the per-call fields batchStart/currentResume/parentRun) over model/Engine.v. *)
 From Coq Require Import List NArith ZArith Bool.
-From Verif Require Import model.Lang model.Engine model.Persist proofs.PersistProofs.
+From Verif Require Import model.Lang model.Engine model.Persist model.PersistFields proofs.PersistProofs.
 Import ListNotations.
 
-(* Clause 1 of the statement, for EVERY session value (reachable or not): whenever the marshalled session can
-   be read back, the session read back marshals to the same value. *)
+(* Clause 1 of the statement for the modelled members: whenever the marshalled session can be read back, the session
+   read back marshals to the same value (no reachability hypothesis).  With run UUID = creation index this is close to
+   definitional; the informative half is c02_reread_succeeds_iff.  Byte-level marshalling (omitempty, null vs [],
+   defaults) is checked by the direct oracle only. *)
 Theorem c02_marshal_fixpoint : forall lv lv',
   restore (persist lv) = Restored lv' -> persist lv' = persist lv.
 Proof. exact marshal_fixpoint. Qed.
@@ -71,3 +73,46 @@ Theorem c02_visible_outcomes : forall a tmo ops lv,
   map v_outcome (run_resumes_v a tmo lv ops) = map o_outcome (run_resumes a tmo lv ops).
 Proof. exact run_resumes_v_outcomes. Qed.
 Print Assumptions c02_visible_outcomes.
+
+(* [resume_applies] (which decides whether a call has a context column, and where the model assigns currentResume /
+   clears batchStart) is the guard chain of Engine.resume_session: when it holds the engine goes on to resume.Apply
+   and the sprint; when it does not, the call is an engine rejection or fails the session with one failure event —
+   no action or template runs, so nothing could have read the per-call fields. *)
+Theorem c02_resume_applies_true : forall a s r tmo,
+  resume_applies a s r = true ->
+  exists wi pos n, waiting_run s = Some wi /\ path_location a s wi = Some (pos, n) /\
+                   resume_session a s r tmo = proceeds a s r tmo wi pos n.
+Proof. exact resume_applies_true. Qed.
+Print Assumptions c02_resume_applies_true.
+
+Theorem c02_no_context_no_action : forall a s tr r tmo,
+  context_in_resume a s tr r = None ->
+  match resume_session a s r tmo with
+  | Rejected _ => True
+  | Resumed (ROk x) => exists wi c, sp_events (sprint_ x) = [(Some wi, {| ev_step := None; ev_kind := EFailure c |})] /\ sp_segments (sprint_ x) = []
+  | Resumed _ => False
+  end.
+Proof. exact no_context_no_action. Qed.
+Print Assumptions c02_no_context_no_action.
+
+(* Tie to the source (tables regenerated by translators/c02fields.py on every run): every member of goflow's session,
+   run and step structs is classified as persisted under a key that MarshalJSON assigns and the reader uses / rebuilt on
+   read / per-call / exempt / host-supplied; every envelope key carries a classified member (or is the legacy key
+   `wait`, neither written nor read).  A new struct member, a new or renamed key, a key no longer written or no longer
+   read re-opens this obligation. *)
+Theorem c02_fields_classified :
+  kind_ok session_tables session_classes session_legacy_keys = true /\
+  kind_ok run_tables run_classes [] = true /\
+  kind_ok step_tables step_classes [] = true.
+Proof. exact fields_classified. Qed.
+Print Assumptions c02_fields_classified.
+
+(* the unpersisted members that are not rebuilt from persisted state are exactly the four the model carries
+   (currentResume, batchStart, pushedFlow, parentRun) and the statement's two exemptions (webhook, legacyExtra) *)
+Theorem c02_per_call_and_exempt_members :
+  names_with is_per_call session_classes = per_call_members /\
+  names_with is_per_call run_classes = [] /\
+  names_with is_exempt run_classes = exempt_members /\
+  names_with is_exempt session_classes = [].
+Proof. exact per_call_and_exempt_members. Qed.
+Print Assumptions c02_per_call_and_exempt_members.
